@@ -382,16 +382,17 @@ func pegRequests(rng *rand.Rand, g *world.Gen) func(uint32, *world.BlockSpec) {
 			}
 			if flood {
 				amt = bankInSrc * uint64(1+rng.Intn(3))
-				if !tinyDone && i > 0 && last != nil && last[x.asset] > 0 {
-					tinyDone = true
-					amt = uint64(1+rng.Intn(2)) * (last[model.PEG]/last[x.asset] + 1)
-				}
 			}
 			if equal {
 				if eqAmt == 0 {
 					eqAmt = amt
 				}
 				amt = eqAmt
+			}
+			if !tinyDone && i > 0 && (flood || rng.Intn(3) == 0) && last != nil && last[x.asset] > 0 {
+				// worth one or two units of PEG: with any oversubscription its share rounds to zero
+				tinyDone = true
+				amt = uint64(1+rng.Intn(2)) * (last[model.PEG]/last[x.asset] + 1)
 			}
 			if amt > x.amt {
 				amt = x.amt
